@@ -7,5 +7,5 @@ mkdir -p "$ROOT/bin" "$ROOT/evidence" "$ROOT/replays" "$ROOT/logs"
 cd "$ROOT/harness"
 go build -tags verif -o "$ROOT/bin/check" ./cmd/check
 go build -race -tags verif -o "$ROOT/bin/check-race" ./cmd/check
-(cd /repo && go build -tags verif -o "$ROOT/bin/bazel-remote" .)
+(cd /repo && go build -tags verif -o "$ROOT/bin/bazel-remote" . && go build -race -tags verif -o "$ROOT/bin/bazel-remote-race" .)
 echo "setup ok"
